@@ -122,7 +122,7 @@ fn bounded<T>(what: &str, size: &Size, days: u64, f: impl FnOnce() -> T) -> Resu
     hooks::arm_budget(Site::DayStep, days + 3);
     let per_step = 64 * (size.rules + 1) * (size.entries + size.spans + 2) * (24 + 2 * size.margin_years);
     hooks::arm_budget(Site::ScheduleAt, days + 6);
-    for s in [Site::WeekHint, Site::DateBounds, Site::ScheduleInsert, Site::ScheduleIter, Site::Positioning] {
+    for s in [Site::WeekHint, Site::DateBounds, Site::ScheduleInsert, Site::ScheduleIter, Site::Positioning, Site::IterNext] {
         hooks::arm_budget(s, per_step.saturating_mul(days + 6));
     }
     hooks::arm_budget(Site::TzMinuteStep, 3_100 * (days + 6) * 8);
@@ -132,8 +132,8 @@ fn bounded<T>(what: &str, size: &Size, days: u64, f: impl FnOnce() -> T) -> Resu
     match r {
         Ok(x) => Ok(x),
         Err(p) if p.starts_with("step budget exceeded") => Err(format!(
-            "{what}: unbounded work: a step budget was exceeded (window of {days} days, budget per step {per_step}); counters: day_steps={} schedule_at={} week_hint={} date_bounds={} schedule_insert={} schedule_iter={} tz_minute_steps={}",
-            t[Site::DayStep as usize], t[Site::ScheduleAt as usize], t[Site::WeekHint as usize], t[Site::DateBounds as usize], t[Site::ScheduleInsert as usize], t[Site::ScheduleIter as usize], t[Site::TzMinuteStep as usize]
+            "{what}: unbounded work: a step budget was exceeded (window of {days} days, budget per step {per_step}); counters: day_steps={} schedule_at={} week_hint={} date_bounds={} schedule_insert={} schedule_iter={} tz_minute_steps={} intervals_yielded={}",
+            t[Site::DayStep as usize], t[Site::ScheduleAt as usize], t[Site::WeekHint as usize], t[Site::DateBounds as usize], t[Site::ScheduleInsert as usize], t[Site::ScheduleIter as usize], t[Site::TzMinuteStep as usize], t[Site::IterNext as usize]
         )),
         Err(p) => Err(format!("{what} panicked: {p}")),
     }
@@ -197,6 +197,13 @@ pub fn check_string_with(text: &str, r: &mut Rng, rep: Option<&mut Report>, unbo
         let to = t.checked_add_signed(Duration::days(window_days) + Duration::minutes(r.range(0, 1439))).unwrap_or(t);
         let days = window_days as u64 + 2;
         let bound = if r.chance(30) { Some(Duration::days(*r.pick(&[1i64, 7, 366, 18_000]))) } else { None };
+        // hostile bounds: the largest and smallest representable durations, zero, negative, sub-second
+        let bound = if bound.is_some() && r.chance(12) {
+            Some(*r.pick(&[Duration::MAX, Duration::MAX - Duration::days(1), Duration::MAX - Duration::hours(23), Duration::MIN, Duration::zero(), Duration::minutes(-5), Duration::nanoseconds(1), Duration::seconds(86_399), Duration::days(106_751_991_167 / 2), Duration::days(3_000_000)]))
+        } else {
+            bound
+        };
+        let bdesc = bound.map(|b| format!(" [context with interval-size bound {b}]")).unwrap_or_default();
         match round % 3 {
             0 => {
                 let mut ctx = Context::default().with_holidays(crate::gen::ctx::gen_holspec(r).build());
@@ -205,12 +212,13 @@ pub fn check_string_with(text: &str, r: &mut Rng, rep: Option<&mut Report>, unbo
                 }
                 let o = oh.clone().with_context(ctx);
                 bounded(&format!("schedule_at({}) of {text:?}", t.date()), &size, 1, || o.schedule_at(t.date()).into_iter().count())?;
-                bounded(&format!("state({t}) of {text:?}"), &size, 2, || o.state(t))?;
-                bounded(&format!("is_open/is_closed/is_unknown({t}) of {text:?}"), &size, 3 * 4, || (o.is_open(t), o.is_closed(t), o.is_unknown(t)))?;
-                bounded(&format!("iter_range({t}, {to}) of {text:?}"), &size, days, || o.iter_range(t, to).count())?;
-                if let Some(b) = bound {
+                bounded(&format!("state({t}) of {text:?}{bdesc}"), &size, 2, || o.state(t))?;
+                bounded(&format!("is_open/is_closed/is_unknown({t}) of {text:?}{bdesc}"), &size, 3 * 4, || (o.is_open(t), o.is_closed(t), o.is_unknown(t)))?;
+                bounded(&format!("iter_range({t}, {to}) of {text:?}{bdesc}"), &size, days, || o.iter_range(t, to).count())?;
+                if let Some(b) = bound.filter(|b| b.num_days() < 100_000 || r.chance(4)) {
                     // with an interval-size bound the unbounded call is bounded by it
-                    bounded(&format!("next_change({t}) with bound {b} of {text:?}"), &size, b.num_days() as u64 + 4, || o.next_change(t))?;
+                    let walk = (b.num_days().clamp(0, 3_000_000) as u64).min((NaiveDate::from_ymd_opt(10_000, 1, 1).unwrap() - t.date().max(NaiveDate::from_ymd_opt(1899, 12, 31).unwrap())).num_days().max(0) as u64) + 4;
+                    bounded(&format!("next_change({t}) with bound {b} of {text:?}{bdesc}"), &size, walk, || o.next_change(t))?;
                 }
             }
             1 => {
@@ -231,9 +239,9 @@ pub fn check_string_with(text: &str, r: &mut Rng, rep: Option<&mut Report>, unbo
                 let o = oh.clone().with_context(ctx);
                 let i = tz.from_utc_datetime(&t);
                 let j = tz.from_utc_datetime(&to);
-                bounded(&format!("state({i}) in zone {tz} of {text:?}"), &size, 2, || o.state(i.clone()))?;
-                bounded(&format!("iter_range({i}, {j}) in zone {tz} of {text:?}"), &size, days + 2, || o.iter_range(i.clone(), j.clone()).count())?;
-                bounded(&format!("schedule_at in zone {tz} of {text:?}"), &size, 1, || o.schedule_at(t.date()).into_iter().count())?;
+                bounded(&format!("state({i}) in zone {tz} of {text:?}{bdesc}"), &size, 2, || o.state(i.clone()))?;
+                bounded(&format!("iter_range({i}, {j}) in zone {tz} of {text:?}{bdesc}"), &size, days + 2, || o.iter_range(i.clone(), j.clone()).count())?;
+                bounded(&format!("schedule_at in zone {tz} of {text:?}{bdesc}"), &size, 1, || o.schedule_at(t.date()).into_iter().count())?;
             }
             _ => {
                 if let Some(c) = coords {
